@@ -57,6 +57,13 @@ class UserExc(Exception):
     pass
 
 
+# the same exception as a member of the builtin families the library catches around its own look-ups (popleft on the
+# queue of a removed model, get_state, attribute resolution): what a callback raises stays the user's whatever its family;
+# all are called 'UserExc' in the log (the tag picks the family)
+USER_EXC = (UserExc, type('UserExc', (UserExc, KeyError), {}), type('UserExc', (UserExc, ValueError), {}),
+            type('UserExc', (UserExc, AttributeError), {}))
+
+
 class Hang(Exception):
     """the case did not finish: deadlock (nothing to release, triggers unfinished) or step bound"""
 
@@ -124,6 +131,24 @@ class Run(object):
             if m is model:
                 return i
         return -1
+
+    def names_probe(self):
+        """after everything finished: the machine can still list its states and every state object answers to its own
+        name (hierarchical state objects carry a `_scope` that enter/exit set and must hand back; the objects are shared
+        by all models)"""
+        if not self.case.get('hsm'):
+            return None
+        try:
+            names = sorted(self.machine.get_nested_state_names())
+        except BaseException as e:       # noqa: BLE001
+            names = 'raised ' + type(e).__name__
+        objs = []
+        for full in ('A', 'B', 'B_x', 'B_y', 'C'):
+            try:
+                objs.append(self.machine.get_state(full).name)
+            except BaseException as e:   # noqa: BLE001
+                objs.append('raised ' + type(e).__name__)
+        return [names, objs]
 
     def state_code(self, m):
         v = m._st
@@ -260,7 +285,7 @@ class Run(object):
             for op in run.ops(tag, slot, idx):
                 if op[0] == 'raise':
                     run.log.append(('cbend', tag, slot, idx, 'raise'))
-                    raise UserExc(op[1])
+                    raise USER_EXC[op[1] % 4](op[1])
                 if op[0] == 'remove':
                     run.do_remove(op[1])
                 if op[0] == 'add':
@@ -286,7 +311,7 @@ class Run(object):
                     elif op[0] == 'trig':
                         await run.call_trigger(op[3], op[1], op[2])
                     elif op[0] == 'raise':
-                        raise UserExc(op[1])
+                        raise USER_EXC[op[1] % 4](op[1])
                     elif op[0] == 'remove':
                         run.do_remove(op[1])
                     elif op[0] == 'add':
@@ -492,6 +517,7 @@ class Run(object):
                 pass                       # retrieved: recorded in the log by call_trigger
         self.final_tasks = self.snapshot()
         self.final_states = [self.state_code(m) for m in self.models]
+        self.final_names = self.names_probe()
         _ = me
 
     def run(self, timeout=20):
